@@ -294,7 +294,7 @@ def run_property(prop_mod_name: str, tier: str, seed: int) -> int:
         # ---- regression tier: committed replay files + open findings
         rdir = os.path.join(VERIF, "replay", prop)
         replayed = 0
-        if os.path.isdir(rdir):
+        if os.path.isdir(rdir) and not os.environ.get("VERIF_NO_REGRESSION"):
             for fn in sorted(os.listdir(rdir)):
                 if not fn.endswith(".json"):
                     continue
